@@ -169,24 +169,12 @@ Proof.
   split; [vm_compute; reflexivity|]. apply FR_le_by_compute. vm_compute. reflexivity.
 Qed.
 
-(** H-STABLE-DET for the repaired function, in sign form, NO guard on the inputs: with any
-    multiplier >= K_STABLE and any lower limit >= K_STABLE * 2^-500 a non-zero answer is the sign
-    of the exact determinant. *)
-Definition H_STABLE_DET : Prop := forall M Mmin a b c,
-  ffinite M = true -> D2R K_STABLE <= FR M -> ffinite Mmin = true -> D2R K_STABLE_MIN <= FR Mmin ->
-  unit_pt a -> unit_pt b -> unit_pt c ->
-  stable_with M Mmin a b c <> 0%Z -> stable_with M Mmin a b c = sgnR (detR a b c).
-(** the same for the function before the repair: FALSE ([H_STABLE_DET_OLD_refuted] below) *)
+(** H-STABLE-DET for the repaired function is discharged in Proofs/C02_StableDet.v
+    ([stable_sound_closed]); the constants enter through [stable_const_ok] / [stable_consts_ok]. *)
+(** the statement for the function BEFORE the repair: FALSE ([H_STABLE_DET_OLD_refuted] below) *)
 Definition H_STABLE_DET_OLD : Prop := forall M a b c, ffinite M = true -> D2R K_STABLE <= FR M ->
   unit_pt a -> unit_pt b -> unit_pt c ->
   stable_old_with M a b c <> 0%Z -> stable_old_with M a b c = sgnR (detR a b c).
-
-Theorem stable_sound : H_STABLE_DET -> forall a b c, unit_pt a -> unit_pt b -> unit_pt c ->
-  s2_stableSign a b c <> 0%Z -> s2_stableSign a b c = sgnR (detR a b c).
-Proof.
-  intros H a b c Ua Ub Uc. rewrite stable_is. destruct stable_const_ok as (FM & LM & FN & LN).
-  now apply H.
-Qed.
 
 (** * triageSignDotProd *)
 Definition fdot (a b : s2_Point) : PrimFloat.float := r3_Vector_Dot (s2_Point_Vector a) (s2_Point_Vector b).
